@@ -38,6 +38,8 @@ func checkC13(R *Run) {
 	R.rule("notify-fields", "every user-change notice carries fields 103 (ID), 102 (name), 104 (icon) and 112 (flags), each built from the ID, UserName, Icon and Flags of one and the same connection")
 	R.rule("userlist-fields", "the user list reply builds each entry from the ID, Icon, Flags and UserName of the same registry element")
 
+	R.rule("disconnect-notifies", "Disconnect removes the registry entry, then produces the user-left notice (302 carrying the user's ID) on every path, and closes the connection")
+	R.ruleDisconnectShape("disconnect-notifies")
 	// ---- id-unique
 	nAdd := 0
 	for _, fn := range P.Funcs {
